@@ -227,6 +227,7 @@ class Verifier:
             if anchor == "at_start":
                 h = I.eval_spec(hexpr, env)
                 if h is not None and not isinstance(h, bool):
+                    I.sum_lemmas(bz(h))
                     I.assume(bz(h))
         I.pre_pc_len = len(I.pc)
         if self._vacuity_pending:
@@ -259,12 +260,14 @@ class Verifier:
             if anchor == "at_end":
                 h = I.eval_spec(hexpr, post_env)
                 if h is not None and not isinstance(h, bool):
+                    I.sum_lemmas(bz(h))
                     I.assume(bz(h))
         for j, e in enumerate(con.ensures):
             for anchor, which, hexpr in con.hints:
                 if anchor == "before_ensures" and which == j:
                     h = I.eval_spec(hexpr, post_env)
                     if h is not None and not isinstance(h, bool):
+                        I.sum_lemmas(bz(h))
                         I.assume(bz(h))
             I.oblige(f"ensures[{j}]", I.eval_spec(e, post_env), "ensures",
                      fn.lineno)
